@@ -15,7 +15,7 @@
 //          sp  ' '     tab  '\t'
 //   eq '='  cm ','  sc ';'  pc '%'  pl '+'
 //   op     one of  ! " # $ & ' ( ) * / : < > ? @ [ \ ] ^ ` { | }
-//   np     one of  0x00 0x01 0x02 0x1f 0x7f 0x80 0xa0 0xc3 0xe9 0xff   (never a C isspace() byte: at the
+//   np     any of  0x00-0x08 0x0e-0x1f 0x7f 0x80-0xff   (never a C isspace() byte: at the
 //          border of a member that would be optional white space - a don't-care)
 //   run [c, n]        n copies of the character
 //   token lit         the character itself;  enc  '%' + two hex digits (random case per digit);
@@ -100,7 +100,16 @@ public:
 
 static const std::string TOKCH = "ABCDEFGHIJKLMNOPQRSTUVWXYZabcdefghijklmnopqrstuvwxyz0123456789-_.~";
 static const std::string OPCH  = "!\"#$&'()*/:<>?@[\\]^`{|}";
-static const std::string NPCH("\x00\x01\x02\x1f\x7f\x80\xa0\xc3\xe9\xff", 10);
+// every non-printable byte that is not a C isspace() byte: 0x00-0x08, 0x0e-0x1f, 0x7f, 0x80-0xff
+static std::string np_bytes()
+{
+  std::string s;
+  for (int c = 0; c < 256; ++c)
+    if ((c < 0x20 && !(c >= 0x09 && c <= 0x0d)) || c >= 0x7f)
+      s.push_back((char)c);
+  return s;
+}
+static const std::string NPCH = np_bytes();
 
 struct Conc
 {
